@@ -23,7 +23,7 @@
 (* inner behaviour, outcome seen by the client / in the access log).       *)
 (*                                                                         *)
 (* The constants FIX_* select the repaired (TRUE) or the original (FALSE)  *)
-(* design for the five defects found with this model (see notes/C12.md,    *)
+(* design for the six defects found with this model (see notes/C12.md,    *)
 (* notes/C20.md): with any of them FALSE, TLC refutes an invariant.        *)
 (***************************************************************************)
 EXTENDS Naturals, Sequences, FiniteSets, TLC, Json
@@ -34,7 +34,8 @@ CONSTANTS Optional,      \* the optional wrappers configurations range over
           FIX_TPL,       \* templates.go: a buffered response is passed on when the handler returned (0, err)
           FIX_LOGPANIC,  \* log.go: a panic unwinding through log is answered and logged by log
           FIX_RECFIRST,  \* recorder.go: ResponseRecorder keeps the status of the first WriteHeader (the one net/http sends)
-          FIX_GZONCE     \* gzip/responsefilter.go: the compress-or-not decision is made with the first header only
+          FIX_GZONCE,    \* gzip/responsefilter.go: the compress-or-not decision is made with the first header only
+          FIX_INFO       \* header.go, recorder.go (ResponseBuffer): an informational header (1xx) is not the response's header
 
 Chain == << "server", "limits", "request_id", "log", "rewrite", "gzip", "header", "errors",
             "basicauth", "status", "mime", "internal", "templates", "probe" >>
@@ -68,6 +69,8 @@ Behaviours ==
     \* all the same (in tree: browse when an archive fails half-way).  C12 says nothing about what
     \* the client should get then; C20 still wants the log line to tell what the client got
     \cup [k : {"writeret"}, s : {500}, e : BOOLEAN, x : BOOLEAN]
+    \* a handler that sends an informational header (103 Early Hints) before its response
+    \cup [k : {"hintwrite"}, s : {200, 404}, e : {FALSE}, x : {TRUE}]
     \cup [k : {"panicbefore"}, s : {0}, e : {FALSE}, x : {FALSE}]
     \cup [k : {"panicafter"}, s : {200}, e : {FALSE}, x : BOOLEAN]
 NoBeh == [k |-> "ret", s |-> 0, e |-> FALSE, x |-> FALSE]     \* probe not reached (status rule answers)
@@ -161,6 +164,15 @@ ErrText(w, k, s) == WR(WH(w, k, s), k, Part(ETok(s)))
 LevelAt(p) == IF p <= Pos("log") THEN 1 ELSE IF p <= Pos("gzip") THEN 2 ELSE IF p <= Pos("header") THEN 3
               ELSE IF p <= Pos("internal") THEN 4 ELSE IF p <= Pos("templates") THEN 5 ELSE 6
 OwnLevel(n) == CHOOSE k \in 1..Len(WLayers) : WLayers[k] = n
+\* WriteHeader(103) on the writer of level 6: repaired, every wrapper passes it on untouched and net/http
+\* sends it without committing anything.  Original: header's wrapper and the templates buffer took it
+\* for the response's header (the real status was dropped later), the others passed it on
+WHI(w) == IF FIX_INFO THEN w
+          ELSE LET w1 == IF WEnabled(OwnLevel("templates")) /\ ~w.tbWrote
+                         THEN [w EXCEPT !.tbWrote = TRUE, !.tbStream = (req.path # "tpl"), !.tbSt = 103] ELSE w
+                   reaches == ~WEnabled(OwnLevel("templates")) \/ w1.tbStream
+               IN  IF reaches /\ WEnabled(OwnLevel("header")) THEN [w1 EXCEPT !.hw = TRUE] ELSE w1
+
 
 \* ---- control --------------------------------------------------------------------------
 Inner(p) == CHOOSE q \in (p + 1)..N : On(cfg, Chain[q]) /\ \A r \in (p + 1)..(q - 1) : ~On(cfg, Chain[r])
@@ -191,8 +203,9 @@ EnterStatus ==   \* status.go: a matching rule answers itself
 \* -- the innermost handler (harness/probe/verifprobe.go), one action per call it makes
 ProbeHeader ==
     /\ dir = "in" /\ Chain[pos] = "probe" /\ pstep = "start"
-    /\ beh.k \in {"write", "panicafter", "writeret"}
-    /\ W' = IF beh.k = "panicafter" \/ beh.x THEN WH(W, 6, IF beh.k = "writeret" THEN 200 ELSE beh.s) ELSE W
+    /\ beh.k \in {"write", "panicafter", "writeret", "hintwrite"}
+    /\ LET w0 == IF beh.k = "hintwrite" THEN WHI(W) ELSE W IN
+       W' = IF beh.k = "panicafter" \/ beh.x THEN WH(w0, 6, IF beh.k = "writeret" THEN 200 ELSE beh.s) ELSE w0
     /\ pstep' = "body"
     /\ UNCHANGED <<cfg, req, beh, dir, pos, ret, lines, errlog>>
 ProbeBody ==
@@ -208,7 +221,7 @@ ProbeFlush ==
 ProbeReturn ==
     /\ dir = "in" /\ Chain[pos] = "probe"
     /\ \/ beh.k = "ret" /\ pstep = "start" /\ ret' = [s |-> beh.s, e |-> beh.e]
-       \/ beh.k = "write" /\ pstep = "end" /\ ret' = [s |-> 0, e |-> beh.e]
+       \/ beh.k \in {"write", "hintwrite"} /\ pstep = "end" /\ ret' = [s |-> 0, e |-> beh.e]
        \/ beh.k = "writeret" /\ pstep = "end" /\ ret' = [s |-> beh.s, e |-> beh.e]
     /\ dir' = "out" /\ pos' = Outer(pos)
     /\ UNCHANGED <<cfg, req, beh, W, lines, errlog, pstep>>
@@ -344,7 +357,7 @@ ErrorGetsBodyP(c, b, o) ==
         /\ o.status = b.s /\ o.body # << >> /\ o.decodable
         /\ (EffErr(c) = "page" => o.body = << PageTok(b.s) >>)
 WrittenUnalteredP(b, o) ==
-    b.k = "write" => /\ o.status = b.s /\ o.decodable
+    b.k \in {"write", "hintwrite"} => /\ o.status = b.s /\ o.decodable
                      /\ o.body = IF NoBody(b.s) THEN << >> ELSE << "B" >>
 PanicP(b, o) ==
     /\ b.k = "panicbefore" => (o.status = 500 /\ Len(o.commits) = 1 /\ o.body # << >>)
